@@ -141,6 +141,30 @@ def run_cases(ctx, n_models, n_states, gen_opts=None, seed_offset=0):
   return cases, disagreements, spec_failures, hist
 
 
+def types_coded(scan, jp, sysm, typs, q, qd, lines, expect, what, tag):
+  """the real scan.link_types with output kinds 'l', 'q', 'd' vs the type-grouped transcription"""
+  from brax.base import Q_WIDTHS, QD_WIDTHS
+  def parts(typ, qs, qds):
+    qs = qs.reshape((-1, Q_WIDTHS[typ])); qds = qds.reshape((-1, QD_WIDTHS[typ]))
+    hq = jp.zeros(qs.shape[0]); hqd = jp.zeros(qs.shape[0])
+    for c in range(Q_WIDTHS[typ]): hq = hq * 10 + qs[:, c]
+    for c in range(QD_WIDTHS[typ]): hqd = hqd * 10 + qds[:, c]
+    return qs, qds, hq, hqd
+  def fl(typ, qs, qds):
+    qs, qds, hq, hqd = parts(typ, qs, qds); return hq + 7 * hqd
+  def fq(typ, qs, qds):
+    qs, qds, hq, hqd = parts(typ, qs, qds); return (qs * 3 + hqd[:, None]).reshape(-1)
+  def fd(typ, qs, qds):
+    qs, qds, hq, hqd = parts(typ, qs, qds); return (qds * 2 + hq[:, None]).reshape(-1)
+  qa, qda = jp.asarray(q, dtype=jp.float64), jp.asarray(qd, dtype=jp.float64)
+  hdr = [typs, str(len(q))] + [str(int(v)) for v in q] + [str(len(qd))] + [str(int(v)) for v in qd]
+  for kind, f in (('l', fl), ('q', fq), ('d', fd)):
+    r = scan.link_types(sysm, f, 'qd', kind, qa, qda)
+    lines.append(' '.join(['typescoded', kind] + hdr))
+    expect.append([int(round(float(v))) for v in np.asarray(r)])
+    what.append((f"scan.link_types (out '{kind}') vs its type-grouped transcription{tag}", typs))
+
+
 def layer_b(ctx, n_cases):
   """exact-integer tie of Layer B: the real `scan.tree` (both directions) and
   `scan.link_types` against `Kin.scanFwd` / `Kin.scanRev` / `Kin.linkSlices` on random forests
@@ -180,6 +204,17 @@ def layer_b(ctx, n_cases):
     hq, hqd = scan.link_types(sysm, f, 'qd', 'll', jp.asarray(q, dtype=jp.float64), jp.asarray(qd, dtype=jp.float64))
     lines.append(' '.join(['slices', typs, str(nq)] + [str(int(v)) for v in q] + [str(nv)] + [str(int(v)) for v in qd]))
     expect.append([int(v) for pair in zip(np.asarray(hq), np.asarray(hqd)) for v in pair]); what.append(('scan.link_types', typs))
+    types_coded(scan, jp, sysm, typs, q, qd, lines, expect, what, '')
+  # exhaustive: EVERY string of link types of up to 5 links (1364 strings; 6 in thorough) through the real
+  # scan.link_types for the three output kinds, against the type-grouped transcription
+  import itertools as _it
+  for n in range(1, ctx.budget(5, 6) + 1):
+    for tup in _it.product('f123', repeat=n):
+      typs = ''.join(tup)
+      sysm = pytypes.SimpleNamespace(link_types=typs, link_parents=tuple(range(-1, n - 1)))
+      nq = sum(Q_WIDTHS[t] for t in typs); nv = sum(QD_WIDTHS[t] for t in typs)
+      q = [(3 * i + 1 + n) % 10 for i in range(nq)]; qd = [(7 * i + 2 + n) % 10 for i in range(nv)]
+      types_coded(scan, jp, sysm, typs, np.asarray(q), np.asarray(qd), lines, expect, what, ' (exhaustive)')
   # exhaustive: EVERY forest with parents preceding children of up to 6 links (873 forests; the property's
   # quantifier is forests of 1-6 links) — 7 links (5040 more) in thorough — through the real scan.tree, both directions
   import itertools
